@@ -2,13 +2,13 @@ package sim
 
 import (
 	"context"
-	"flag"
-	"sync"
 	"encoding/json"
+	"flag"
 	"fmt"
 	"io"
 	"reflect"
 	"sort"
+	"sync"
 	"time"
 
 	kruisev1alpha1 "github.com/openkruise/kruise-api/apps/v1alpha1"
@@ -19,16 +19,16 @@ import (
 	rolloutctrl "github.com/openkruise/rollouts/pkg/controller/rollout"
 	trctrl "github.com/openkruise/rollouts/pkg/controller/trafficrouting"
 	trmanager "github.com/openkruise/rollouts/pkg/trafficrouting"
-	"github.com/openkruise/rollouts/pkg/util/grace"
 	expectations "github.com/openkruise/rollouts/pkg/util/expectation"
+	"github.com/openkruise/rollouts/pkg/util/grace"
 	admissionv1 "k8s.io/api/admission/v1"
 	appsv1 "k8s.io/api/apps/v1"
 	corev1 "k8s.io/api/core/v1"
 	"k8s.io/apimachinery/pkg/runtime"
 	"k8s.io/apimachinery/pkg/runtime/schema"
 	"k8s.io/apimachinery/pkg/types"
-	clienttesting "k8s.io/client-go/testing"
 	"k8s.io/client-go/kubernetes/scheme"
+	clienttesting "k8s.io/client-go/testing"
 	"k8s.io/client-go/util/workqueue"
 	"k8s.io/klog/v2"
 	"k8s.io/utils/pointer"
@@ -67,8 +67,8 @@ func init() {
 
 type discardRecorder struct{}
 
-func (discardRecorder) Event(runtime.Object, string, string, string)                    {}
-func (discardRecorder) Eventf(runtime.Object, string, string, string, ...interface{})   {}
+func (discardRecorder) Event(runtime.Object, string, string, string)                  {}
+func (discardRecorder) Eventf(runtime.Object, string, string, string, ...interface{}) {}
 func (discardRecorder) AnnotatedEventf(runtime.Object, map[string]string, string, string, string, ...interface{}) {
 }
 
@@ -121,7 +121,7 @@ type World struct {
 	pending []QItem
 	inQueue map[string]bool
 
-	reconcilers map[string]reconcile.Reconciler
+	reconcilers            map[string]reconcile.Reconciler
 	rolloutWorkloadHandler handler.EventHandler
 	rolloutBRHandler       handler.EventHandler
 	brPodHandler           handler.EventHandler
@@ -151,9 +151,9 @@ type Options struct {
 
 func NewWorld(opt Options) *World {
 	w := &World{
-		epoch:   time.Now().Add(-48 * time.Hour).Truncate(time.Second),
-		inQueue: map[string]bool{},
-		Scratch: map[string]any{},
+		epoch:    time.Now().Add(-48 * time.Hour).Truncate(time.Second),
+		inQueue:  map[string]bool{},
+		Scratch:  map[string]any{},
 		Excluded: map[string]int{},
 		cache:    map[schema.GroupVersionKind]map[types.NamespacedName]client.Object{},
 	}
@@ -371,17 +371,17 @@ func (q *simQueue) add(item interface{}) {
 		q.w.enqueue(q.ctrl, r.NamespacedName)
 	}
 }
-func (q *simQueue) Add(item interface{})                          { q.add(item) }
-func (q *simQueue) AddAfter(item interface{}, _ time.Duration)     { q.add(item) }
-func (q *simQueue) AddRateLimited(item interface{})               { q.add(item) }
-func (q *simQueue) Forget(interface{})                            {}
-func (q *simQueue) NumRequeues(interface{}) int                   { return 0 }
-func (q *simQueue) Len() int                                      { return len(q.w.pending) }
-func (q *simQueue) Get() (interface{}, bool)                      { return nil, true }
-func (q *simQueue) Done(interface{})                              {}
-func (q *simQueue) ShutDown()                                     {}
-func (q *simQueue) ShutDownWithDrain()                            {}
-func (q *simQueue) ShuttingDown() bool                            { return false }
+func (q *simQueue) Add(item interface{})                       { q.add(item) }
+func (q *simQueue) AddAfter(item interface{}, _ time.Duration) { q.add(item) }
+func (q *simQueue) AddRateLimited(item interface{})            { q.add(item) }
+func (q *simQueue) Forget(interface{})                         {}
+func (q *simQueue) NumRequeues(interface{}) int                { return 0 }
+func (q *simQueue) Len() int                                   { return len(q.w.pending) }
+func (q *simQueue) Get() (interface{}, bool)                   { return nil, true }
+func (q *simQueue) Done(interface{})                           {}
+func (q *simQueue) ShutDown()                                  {}
+func (q *simQueue) ShutDownWithDrain()                         {}
+func (q *simQueue) ShuttingDown() bool                         { return false }
 
 // fanout delivers the watch event of a write to every controller's real event handlers
 // (or, for EnqueueRequestForObject-style watches, enqueues the object itself).
@@ -457,6 +457,12 @@ func (w *World) reconcileItem(it QItem) ReconcileResult {
 	r := w.reconcilers[it.Ctrl]
 	res := ReconcileResult{Item: it}
 	if r == nil {
+		return res
+	}
+	if w.supersededBatchReleaseWouldResume(it) {
+		// excluded schedule of a listed finding: the item is dropped; whatever ends the condition
+		// (the Rollout deleting the BatchRelease, another template change) queues it again
+		w.Excluded[FindingSupersededResumed]++
 		return res
 	}
 	w.Reconciles++
